@@ -341,7 +341,7 @@ class Ops(object):
             return self.seq_method(it, obj, name)
         if isinstance(obj, SMap):
             return self.map_method(it, obj, name)
-        if isinstance(obj, Sym) or type(obj).__name__ in ('MatchObj', 'Poison', 'ParsedDT', 'Conv'):
+        if isinstance(obj, Sym) or type(obj).__name__ in ('MatchObj', 'Poison', 'ParsedDT', 'Conv', 'CharMatch'):
             h = w.hooks.get('val_getattr')
             if h is not None:
                 r = h(it, obj, name)
